@@ -300,3 +300,118 @@ func randTerminalFrame(r *rand.Rand, i int) B {
 	}
 	return buildFrame(h)
 }
+
+// ---------------------------------------------------------------- C02
+
+type c02Case struct {
+	F    B       `json:"f"`
+	D    DecView `json:"d"`
+	Kind string  `json:"kind"`
+}
+
+func sameView(a, b DecView) bool {
+	if a.Ok != b.Ok {
+		return false
+	}
+	if !a.Ok {
+		return true
+	}
+	return a.ID == b.ID && a.Len == b.Len && a.Enc == b.Enc && a.Frag == b.Frag && a.Ver == b.Ver &&
+		bytes.Equal(a.Digits, b.Digits) && a.Serial == b.Serial && a.Total == b.Total && a.No == b.No &&
+		bytes.Equal(a.Body, b.Body)
+}
+
+func hasInteriorFlag(f []byte) bool {
+	return len(f) > 2 && bytes.IndexByte(f[1:len(f)-1], 0x7e) >= 0
+}
+
+func init() {
+	cmds["c02-replay"] = func(a []string) {
+		out := newND(a[1])
+		defer out.close()
+		n, acc := 0, 0
+		classes := map[string]int{}
+		var samples []any
+		err := readND(a[0], func(i int, raw []byte) error {
+			var c c02Case
+			if err := jsonUnmarshal(raw, &c); err != nil {
+				return err
+			}
+			n++
+			got, _ := decodeView(c.F)
+			cls := c.Kind + map[bool]string{true: " accepted", false: " rejected"}[c.D.Ok]
+			classes[cls]++
+			if c.D.Ok {
+				acc++
+				if len(samples) < 3 && c.Kind != "seed" {
+					samples = append(samples, c)
+				}
+			}
+			switch {
+			case got.Panic != "":
+				out.put(mismatch{"decode-panic " + c.Kind, got.Panic, c})
+			case got.Ok && !c.D.Ok:
+				out.put(mismatch{"accepts-ill-formed " + c.Kind, fmt.Sprintf("%x accepted as %+v", []byte(c.F), got), c})
+			case !got.Ok && c.D.Ok:
+				out.put(mismatch{"rejects-well-formed " + c.Kind, fmt.Sprintf("%x rejected: %s", []byte(c.F), got.Err), c})
+			case !sameView(got, c.D):
+				out.put(mismatch{"fields-differ " + c.Kind, fmt.Sprintf("got %+v want %+v", got, c.D), c})
+			}
+			return nil
+		})
+		if err != nil {
+			die(err)
+		}
+		out.put(summary{Summary: true, Cases: n, Distinct: n, Classes: classes, Samples: samples})
+	}
+
+	cmds["c02-gen"] = func(a []string) {
+		n := atoi(a[0])
+		out := newND(a[1])
+		defer out.close()
+		r := newRand(202)
+		for i := 0; out.n < n; i++ {
+			h := randHdr(r)
+			h.rsv = []int{0, 0, 0, 1}[r.Intn(4)]
+			h.enc3 = []int{0, 0, 1, 2, 4, 7}[r.Intn(6)]
+			h.verbyte = byte([]int{1, 1, 0, 2, 0x7d}[r.Intn(5)])
+			h.total, h.no = r.Intn(65536), r.Intn(65536)
+			h.body = randBody(r, i)
+			f := buildFrame(h)
+			kind := "valid"
+			switch r.Intn(8) {
+			case 0: // bit flip
+				k := r.Intn(len(f))
+				f[k] ^= 1 << uint(r.Intn(8))
+				kind = "bitflip"
+			case 1: // byte substitution by a special
+				f[r.Intn(len(f))] = []byte{0x7d, 0x01, 0x02, 0x00, 0x7e}[r.Intn(5)]
+				kind = "subst"
+			case 2:
+				f = f[:r.Intn(len(f))]
+				kind = "truncate"
+			case 3:
+				k := r.Intn(len(f) + 1)
+				f = append(f[:k:k], append([]byte{[]byte{0x7d, 0x01, 0x02, 0x41}[r.Intn(4)]}, f[k:]...)...)
+				kind = "insert"
+			case 4:
+				k := r.Intn(len(f))
+				f = append(f[:k:k], f[k+1:]...)
+				kind = "delete"
+			case 5: // random string between delimiters
+				m := r.Intn(40)
+				f = []byte{0x7e}
+				for k := 0; k < m; k++ {
+					f = append(f, []byte{0x7d, 0x01, 0x02, byte(r.Intn(256))}[r.Intn(4)])
+				}
+				f = append(f, 0x7e)
+				kind = "random"
+			}
+			if hasInteriorFlag(f) {
+				continue // outside the property's domain
+			}
+			d, _ := decodeView(f)
+			out.put(c02Case{F: f, D: d, Kind: kind})
+		}
+	}
+}
